@@ -12,6 +12,9 @@ from simlib.props import c02
 
 ID = "C14"
 LEVEL = "exploration"
+# a worker that hangs or blows up in native code while running a case of this
+# property is re-run in a sandboxed interpreter; a second hang is the verdict
+HANG_IS_VIOLATION = True
 TECHNIQUE = ("deterministic simulation: counters at the source-iterator and "
              "open() seams while k elements are taken from short, long and "
              "infinite streams, under scheduler policies that let workers run "
@@ -37,7 +40,7 @@ REAL_STUB = c02.REAL_STUB
 
 def budget(tier):
     if tier == "quick":
-        return {"wall_s": 35.0, "max_cases": 10**9, "case_timeout": 90.0}
+        return {"wall_s": 35.0, "max_cases": 10**9, "case_timeout": 40.0}
     return {"wall_s": 420.0, "max_cases": 10**9, "case_timeout": 120.0}
 
 
